@@ -99,17 +99,35 @@ fn gen_building(r: &mut Rng, pairs: &[Pair]) -> Built {
                 ..Default::default()
             };
             rats.insert(wall.id, Rat { az, tilt: VERT });
+            let mut wall = wall;
             if r.chance(2, 3) {
                 let ww = r.grid(0.5, 2.0, 0.25);
                 let wh = r.grid(0.5, 1.5, 0.25);
+                // the same outline listed from another corner: the window is placed in the frame of the first edge
+                // (origin at the first vertex, x along the first edge), so its position is given in that frame
+                let start = if r.chance(1, 4) { 1 + r.below(3) } else { 0 };
+                let (lx, ly) = (r.grid(0.25, (*len - 2.25).max(0.25), 0.25), r.grid(0.25, 1.0, 0.25));
+                let (lenf, hf) = (*len as f32, h);
+                let pos = match start {
+                    0 => point![lx, ly],
+                    // origin (len, 0), x along +Y, y along -X: local (X, Y) = (len - py, px)
+                    1 => point![ly, lenf - lx - wh.min(lenf - lx)],
+                    // origin (len, h), x along -X, y along -Y
+                    2 => point![lenf - lx - ww.min(lenf - lx), (hf - ly - wh).max(0.0)],
+                    // origin (0, h), x along -Y, y along +X
+                    _ => point![(hf - ly - ww).max(0.0), lx],
+                };
+                if start > 0 {
+                    wall.geometry.polygon.rotate_left(start);
+                }
                 m.windows.push(Window {
                     name: format!("s{}w{}h", b, k),
                     wall: wall.id,
                     geometry: WinGeom {
-                        position: if r.chance(1, 12) { None } else { Some(point![r.grid(0.25, (*len - 2.25).max(0.25), 0.25), r.grid(0.25, 1.0, 0.25)]) },
+                        position: if r.chance(1, 12) { None } else { Some(pos) },
                         width: ww,
                         height: wh,
-                        setback: *r.pick(&[0.0, 0.0, 0.005, 0.1, 0.25, 0.5]),
+                        setback: if start > 0 { 0.0 } else { *r.pick(&[0.0, 0.0, 0.005, 0.1, 0.25, 0.5]) },
                     },
                     ..Default::default()
                 });
